@@ -832,6 +832,51 @@ example : wfRows (colTypes (Cols.global b!"ks" b!"t" [(b!"c0", .native 3), (b!"c
       = [Marshal.GoTy.str false, .ptr (.int .int false)].length ∧
     [Marshal.GoTy.str false, .ptr (.int .int false)].all statelessTy = true := by decide
 
+/-! ### KF-C04-8 (OPEN, proposed): Query.MapScanCAS panics where MapScan fails -/
+
+/-- a lightweight-transaction result: `[applied]` boolean and `c` of the custom type `x.Y`, one row (true, 00) -/
+def cexCasResp : LResp :=
+  { stream := 7, tracing := none, warnings := none, payload := none, beta := false,
+    body := .result (.rows { paging := none, cols := .global b!"ks" b!"t" [(b!"[applied]", .native 4), (b!"c", .custom b!"x.Y")] }
+      [[.bytes [1], .bytes [0]]]) }
+
+def cexCasQ : Paged.QIter :=
+  qOf cexCasResp { paging := none, cols := .global b!"ks" b!"t" [(b!"[applied]", .native 4), (b!"c", .custom b!"x.Y")] }
+    [[.bytes [1], .bytes [0]]]
+
+/-- FULL PROPERTY (does not hold): for every well-formed result MapScanCAS returns `applied` and the other columns,
+    or an error. Counterexample: the response is well-formed, it IS what executeQuery hands to MapScanCAS
+    (C04_query_view), ScanCAS reports applied = true and the cell of `c` — and MapScanCAS panics (`none`). -/
+theorem C04_cex_mapscancas_panics :
+    wf 4 cexCasResp = true ∧
+    Paged.execute 4 true [encodeFrame 4 cexCasResp] = some (cexCasQ, []) ∧
+    (Paged.scanCAS cexCasQ 1).map (fun x => (x.1, x.2.1.map (fun c => (c.dest, c.data)))) = some (true, [(0, some [0])]) ∧
+    (Paged.mapScanCAS cexCasQ).isNone = true := by
+  refine ⟨by decide, ?_, by decide, by decide⟩
+  exact (C04_query_view 4 cexCasResp [] (by decide) (by decide)).1 _ _ rfl
+
+open Paged in
+/-- what is true of MapScanCAS: on a result with rows it panics EXACTLY when Iter.MapScan does not return true or
+    stores nothing under `[applied]`; otherwise it returns what MapScan stored: `applied` from the cell of
+    `[applied]`, the other columns, and iter.Close()'s error -/
+theorem C04_mapscancas_panics_exactly (q : QIter) (hf : q.it.failed = false) (hn : (q.it.numRows == 0) = false) :
+    (mapScanCAS q = none ↔
+      (∀ it' m, mapScan q.it = .row it' m → m.lookup b!"[applied]" = none)) := by
+  unfold mapScanCAS
+  simp only [hf, hn, Bool.false_eq_true, if_false]
+  cases hm : mapScan q.it with
+  | crash => simp
+  | stop it' => simp
+  | row it' m =>
+    constructor
+    · intro h it'' m' heq
+      cases heq
+      cases hl : List.lookup [0x5B, 0x61, 0x70, 0x70, 0x6C, 0x69, 0x65, 0x64, 0x5D] m with
+      | none => rfl
+      | some v => simp [hl] at h
+    · intro h
+      simp [h it' m rfl]
+
 /-- the hypotheses of C04_pages_scan / C04_pages_scan_error are satisfiable: a query of two pages, `c blob` with the
     rows (01), (null) and a paging state, then — the column named differently, per-column table spec — (02) -/
 def exPage1 : RowsPage :=
